@@ -3,7 +3,7 @@ from props import mutexcommon
 RULE = ("controlled schedules (real threads, one runnable at a time, yield at every COCLS_VERIF_POINT of mutex.h, at the blocking "
         "flag wait, inside the critical section and at every round boundary) of 2-4 contenders (coroutines / blocking threads), 1-3 rounds "
         "each, acquisition by co_await lock() / lock().wait() / try_lock(), release by ownership destruction / release() discarded / "
-        "co_await release(); random, bursty, highest-first and sparse-preemption schedules, plus a malformed-declaration stream; thorough adds "
+        "co_await release(); random, bursty, highest-first and sparse-preemption schedules, a malformed-declaration stream, and directed schedules (all interleavings of a release with a request in flight, try_lock racing unlock, two late arrivals between an owner's publishing CAS and its build_queue with 4 contenders, 4 parties on 3 threads with a thread still in await_suspend, the same schedule under every release flavour and every blocking/coroutine mix); thorough adds "
         "every schedule prefix of length 13 (2 contenders x 2 rounds) / 9 (3 x 1) and all pairs of single-step preemptions; "
         "non-trivial = at least 3 OS-thread switches in the executed trace; distinct = distinct (contenders, schedule)")
 SCOPE = ("mutex::ready/subscribe/build_queue/unlock/try_lock/lock, mutex::ownership (deleter, release), co_awaiter<mutex> "
